@@ -32,6 +32,16 @@ Theorem C10_never_panics : forall pool cs, Forall (call_in_pool pool) cs ->
 Proof. intros pool cs H. exact (never_panics pool cs NewState I1_new H). Qed.
 Print Assumptions C10_never_panics.
 
+(* the remaining slice / index expressions, which the model writes with total list functions
+   (firstn, nth), are in range as well: no underflow in `s.open[0 : len(s.open)-len(closed)]`, and the
+   index Close shifts at is inside the list (closed[len-1] / s.open[len-1] in the validation are
+   guarded by the same emptiness tests as in the Go code: last_opt) *)
+Theorem C10_internal_slices_in_range : forall s d,
+  length (close_loop d (rev (open s))) <= length (open s) /\
+  (forall i, find_last_equal d (open s) = Some i -> i < length (open s)).
+Proof. exact internal_slices_in_range. Qed.
+Print Assumptions C10_internal_slices_in_range.
+
 (* Open() shows the open list minus the pending breakaway *)
 Theorem C10_open_spec : forall s, I1 s ->
   Open s = Ok (if inBlackout s then remove_at (blackoutIdx s) (open s) else open s).
